@@ -421,14 +421,37 @@ def structure_function_vk(seperation, r0, L0):
         ndarray, float: Structure function for seperation(s)
     """
     ## theoretical structure function
-    with numpy.errstate(invalid="ignore"):
-        D_vk = (    0.17253 * (L0 / (r0)) ** (5. / 3.)
-                    * (1 - 2 * numpy.pi ** (5. / 6.) * ((seperation) / L0) ** (5. / 6.)
-                    / scipy.special.gamma(5. / 6.)
-                    * scipy.special.kv(5. / 6., (2 * numpy.pi * seperation) / L0))
-                )
+    # everything in double precision (float32 separations or outer scales would
+    # otherwise do the cancellation-prone maths below in single precision)
+    seperation = numpy.asarray(seperation, dtype=numpy.float64)
+    r0 = float(r0)
+    L0 = float(L0)
 
-    # At zero separation the Bessel term is 0 * inf = nan; the structure function there is 0
+    # x = 2 pi r / L0;  D = 0.17253 (L0/r0)^(5/3) (1 - 2^(1/6)/Gamma(5/6) x^(5/6) K_5/6(x))
+    x = 2 * numpy.pi * seperation / L0
+    nu = 5. / 6.
+
+    # For x > 1 the bracket is evaluated as written
+    with numpy.errstate(invalid="ignore", divide="ignore", over="ignore"):
+        direct = 1 - 2 ** (1 - nu) / scipy.special.gamma(nu) * x ** nu * scipy.special.kv(nu, x)
+
+    # For small x it is 1 - 1 + O(x^(5/3)): the leading terms cancel and the
+    # rounding error of the Bessel term, multiplied by (L0/r0)^(5/3), swamps the
+    # result for a large outer scale (2.6 % at L0 = 1e8 m, r = 0.1 m). Use the
+    # ascending series of K_nu = pi/(2 sin(nu pi)) (I_-nu - I_nu), in which the
+    # leading 1 cancels analytically
+    xs = numpy.where(x < 1, x, 0.)
+    s_minus = numpy.zeros_like(xs)
+    s_plus = numpy.zeros_like(xs)
+    for k in range(12):
+        if k >= 1:
+            s_minus += (xs / 2) ** (2 * k) / (scipy.special.gamma(k + 1.) * scipy.special.gamma(k - nu + 1))
+        s_plus += (xs / 2) ** (2 * k + 2 * nu) / (scipy.special.gamma(k + 1.) * scipy.special.gamma(k + nu + 1))
+    series = numpy.pi / (numpy.sin(nu * numpy.pi) * scipy.special.gamma(nu)) * (s_plus - s_minus)
+
+    D_vk = 0.17253 * (L0 / r0) ** (5. / 3.) * numpy.where(x < 1, series, direct)
+
+    # At zero separation the structure function is 0 (the series gives exactly that)
     D_vk = numpy.where(numpy.equal(seperation, 0), 0., D_vk)[()]
 
     return D_vk
